@@ -85,7 +85,7 @@ def loop_kinds(prog, func):
             recv_ty = ht['args'][0]['place']['ty'] if ht['args'] and ht['args'][0]['k'] in ('copy', 'move') else ''
             info.update(kind='for', ok=True, why='`for` over %s' % recv_ty)
             # unbounded iterator types are not used in this crate; check the iterator type is a finite one
-            finite = any(x in recv_ty for x in ('Range', 'Iter', 'Chars', 'Rev', 'IntoIter', 'Cloned', 'Values', 'Keys', 'Box<dyn', 'StepBy', 'Map<', 'Skip', 'Take'))
+            finite = any(x in recv_ty for x in ('Range', 'Iter', 'Chars', 'CharIndices', 'Rev', 'IntoIter', 'Cloned', 'Values', 'Keys', 'Box<dyn', 'StepBy', 'Map<', 'Skip', 'Take'))
             if not finite:
                 info.update(ok=False, why='iterator type %s not known to be finite' % recv_ty)
             if 'RangeFrom' in recv_ty or 'Repeat' in recv_ty or 'Cycle' in recv_ty:
